@@ -419,6 +419,10 @@ func (s *vpHdrScn) oneMessage(tag string, o vpMsgOpt) bool {
 	sender := s.peers[senderIdx]
 	listened := e.bm.SyncPeer() == sender || e.bm.BlockHeadersSynced()
 
+	if vpParam("quitmid", 0) == 1 && f >= 0 && f < tip && !e.quitOnDisconnect {
+		// the client may be shut down while the reorganisation rolls back
+		e.quitOnDisconnect = vpRange(tag+"shutdownDuringTheRollback", 0, 1) == 1
+	}
 	msg := &wire.MsgHeaders{Headers: out}
 	e.bm.handleHeadersMsg(&headersMsg{headers: msg, peer: sender})
 	vpQuiesce()
